@@ -737,19 +737,25 @@ func (b *Block) getNumVoxels(labelIndex uint32) (labelVoxels uint64) {
 				default:
 				}
 
+				// Several sub-block slots can point to the same label index (e.g., after a merge),
+				// so every matching slot counts.
+				sbIndexStart := indexPos
 				var found bool
-				var targetIndex uint16
 				for i := uint16(0); i < numSBLabels; i++ {
 					if b.SBIndices[indexPos] == labelIndex {
 						found = true
-						targetIndex = i
 					}
 					indexPos++
 				}
+				bits := int(bitsFor(numSBLabels))
 				if !found {
+					// skip this sub-block's values so later sub-blocks are read at the right position
+					bitpos += SubBlockSize * SubBlockSize * SubBlockSize * bits
+					if bitpos%8 != 0 {
+						bitpos += 8 - (bitpos % 8)
+					}
 					continue
 				}
-				bits := int(bitsFor(numSBLabels))
 
 				var x, y, z int32
 				for z = 0; z < SubBlockSize; z++ {
@@ -768,7 +774,7 @@ func (b *Block) getNumVoxels(labelIndex uint32) (labelVoxels uint64) {
 								index |= uint16(b.SBValues[bytepos+1])
 								index >>= uint(16 - bithead - bits)
 							}
-							if index == targetIndex {
+							if index < numSBLabels && b.SBIndices[sbIndexStart+uint32(index)] == labelIndex {
 								labelVoxels++
 							}
 							bitpos += bits
